@@ -221,7 +221,7 @@ class FrameQueueFrag(FrameQueue):
                 self._frags.unpack(frame.pack())  # make copy not reference
                 return True
             if (
-                self._frags.header.from_node is not None  # if not just initialized
+                frame.header.from_node == self._frags.header.from_node
                 and frame.header.to_node == self._frags.header.to_node
                 and frame.header.frame_id == self._frags.header.frame_id
             ):
